@@ -35,7 +35,7 @@
 (* different computations share a key (two writers of one location), e.g.  *)
 (* dask.delayed(pure=True) calls whose token ignores an argument.          *)
 (***************************************************************************)
-EXTENDS Integers, Sequences, FiniteSets, TLC, PySlice
+EXTENDS Integers, Sequences, FiniteSets, TLC, PySlice, DaskSteps
 
 CONSTANTS
   Roots,          \* set of root descriptions [cls, sh, back, ch]
@@ -70,17 +70,9 @@ Zero == T("0", <<>>, <<>>)
 (***************************************************************************)
 (* Chunk grids                                                             *)
 (***************************************************************************)
-RECURSIVE Sum(_)
-Sum(s) == IF s = <<>> THEN 0 ELSE Head(s) + Sum(Tail(s))
 Offs(c) == [j \in 1..Len(c) |-> Sum(SubSeq(c, 1, j - 1))]
 Single(sh) == <<<<sh[1]>>, <<sh[2]>>, <<sh[3]>>>>
 Ones(n) == IF n = 0 THEN <<0>> ELSE [j \in 1..n |-> 1]
-\* a chunk list is a composition of the axis length (or <<0>> for an empty axis)
-IsComposition(c, n) ==
-  /\ Len(c) >= 1
-  /\ Sum(c) = n
-  /\ (n > 0 => \A j \in 1..Len(c) : c[j] >= 1)
-  /\ (n = 0 => c = <<0>>)
 IsGrid(ch, sh) == \A a \in 1..3 : IsComposition(ch[a], sh[a])
 \* all compositions of n
 RECURSIVE Compositions(_)
@@ -555,26 +547,33 @@ Anc(g, Tset) == LET more == Tset \cup UNION {Range(g[t].deps) : t \in Tset}
                 IN IF more = Tset THEN Tset ELSE Anc(g, more)
 BlockTasks(s) == {s.blk[b] : b \in BlockSet(s.ch)}
 
+\* contrib.stft reshapes the time axis into segments before the FFT; whether dask's reshape
+\* leaves the segment axis in one chunk depends on how the time chunks fall on the segment
+\* boundaries (not modelled): with a chunked time axis both outcomes are admitted.
+MayAlsoRefuse(o) == o.op = "stft" /\ sig.back = "dask" /\ Len(sig.ch[1]) > 1
+
+Accept(o, P) ==
+  /\ Len(P.S.g) <= MaxTasks
+  /\ IF o.op \in NumpyOps /\ sig.back = "dask"
+     THEN sig' = [P.S.sig EXCEPT !.back = "np", !.ch = <<>>, !.blk = <<>>, !.data = P.S.sig.val]
+     ELSE sig' = P.S.sig
+  /\ graph' = P.S.g
+  /\ IF o.op \in EagerOps /\ sig.back = "dask"
+     THEN LET ran == Anc(graph, BlockTasks(sig))
+          IN done' = done \cup ran /\ nexec' = nexec + Cardinality(ran)
+     ELSE UNCHANGED <<done, nexec>>
+  /\ Log("transform", o, FALSE, sig', P.S.g)
+  /\ UNCHANGED <<phase, store, choices>>
+Refuse(o) ==
+  /\ phase' = [phase EXCEPT !.st = "err"]
+  /\ Log("transform", o, TRUE, sig, graph)
+  /\ UNCHANGED <<sig, graph, done, store, nexec, choices>>
 Transform(o) ==
   /\ phase.st = "build" /\ NOps < MaxDepth
   /\ o.op \notin {"rechunk", "to_dask"}
   /\ Applies(sig, o)
   /\ LET P == RunPlan([sig |-> sig, g |-> graph], o, 1)
-     IN IF P.ok
-        THEN /\ Len(P.S.g) <= MaxTasks
-             /\ IF o.op \in NumpyOps /\ sig.back = "dask"
-                THEN sig' = [P.S.sig EXCEPT !.back = "np", !.ch = <<>>, !.blk = <<>>, !.data = P.S.sig.val]
-                ELSE sig' = P.S.sig
-             /\ graph' = P.S.g
-             /\ IF o.op \in EagerOps /\ sig.back = "dask"
-                THEN LET ran == Anc(graph, BlockTasks(sig))
-                     IN done' = done \cup ran /\ nexec' = nexec + Cardinality(ran)
-                ELSE UNCHANGED <<done, nexec>>
-             /\ Log("transform", o, FALSE, sig', P.S.g)
-             /\ UNCHANGED <<phase, store, choices>>
-        ELSE /\ phase' = [phase EXCEPT !.st = "err"]
-             /\ Log("transform", o, TRUE, sig, graph)
-             /\ UNCHANGED <<sig, graph, done, store, nexec, choices>>
+     IN IF P.ok THEN Accept(o, P) \/ (MayAlsoRefuse(o) /\ Refuse(o)) ELSE Refuse(o)
 
 Container(o) ==
   /\ phase.st = "build" /\ NOps < MaxDepth
@@ -674,24 +673,6 @@ Spec == Init /\ [][Next]_vars
 (***************************************************************************)
 (* Properties                                                              *)
 (***************************************************************************)
-\* step predicates, shared with spec/Trace_Dask.tla (pre / post are Summary-like records,
-\* kind is the class of the public call, n0 / n1 the execution counter before / after)
-LazyStep(kind, n0, n1) == kind \in {"transform", "container"} => n1 = n0
-StaysDaskStep(kind, pre, post) == (kind = "transform" /\ pre.back = "dask") => post.back = "dask"
-NumpyStaysNumpyStep(kind, pre, post) == (kind = "transform" /\ pre.back = "np") => post.back = "np"
-ContainerOnlyStep(kind, pre, post) ==
-  kind \in {"container", "run"} =>
-    /\ post.cls = pre.cls /\ post.sh = pre.sh /\ post.per = pre.per /\ post.t0 = pre.t0 /\ post.clo = pre.clo
-GridStep(post) == post.back = "dask" => IsGrid(post.ch, post.sh)
-\* a refusal is legitimate only for an FFT over an axis that is chunked
-FftAxes(op, a) ==
-  CASE op \in {"time_shift", "freq_shift", "coh_dd", "snippet", "stft"} -> {1}
-    [] op = "istft" -> {2}
-    [] op = "fft_axis" -> {a[1]}
-    [] OTHER -> {}
-RefusalStep(op, a, refused, pre) ==
-  refused => pre.back = "dask" /\ \E ax \in FftAxes(op, a) : Len(pre.ch[ax]) > 1
-
 LastKind == IF hist' # hist THEN hist'[Len(hist')].kind ELSE "internal"
 Lazy == [][/\ (hist' # hist => LazyStep(LastKind, nexec, nexec'))
            /\ (done' # done => phase.st = "run" \/ phase'.st = "run" \/ LastKind = "run")]_vars
@@ -699,14 +680,11 @@ LazyDone == [][(LastKind \in {"transform", "container"}) => done' = done]_vars
 StaysDask == [][hist' # hist => /\ StaysDaskStep(LastKind, Summary(sig), Summary(sig'))
                                 /\ NumpyStaysNumpyStep(LastKind, Summary(sig), Summary(sig'))]_vars
 ContainerOnly ==
-  [][/\ (hist' # hist => ContainerOnlyStep(LastKind, Summary(sig), Summary(sig')))
-     /\ ((hist' # hist /\ LastKind = "container") => sig'.val = sig.val /\ sig'.back = "dask")
-     /\ ((hist' # hist /\ LastKind = "run") =>                 \* the end of a run
-           LET mode == hist'[Len(hist')].op
-           IN /\ ContainerOnlyStep("run", Summary(sig), Summary(sig'))
-              /\ sig'.val = sig.val
-              /\ sig'.back = (IF mode = "compute" \/ sig.back = "np" THEN "np" ELSE "dask")
-              /\ (mode # "compute" => sig'.ch = sig.ch))]_vars
+  [][hist' # hist =>
+       /\ ContainerOnlyStep(LastKind, Summary(sig), Summary(sig'))
+       /\ ContainerBackStep(LastKind, Summary(sig'))
+       /\ (LastKind \in {"container", "run"} => sig'.val = sig.val)
+       /\ (LastKind = "run" => RunStep(hist'[Len(hist')].op, Summary(sig), Summary(sig')))]_vars
 RefusalsLegit == \A j \in 1..Len(hist) : RefusalStep(hist[j].op, hist[j].a, hist[j].refused, hist[j].pre)
 
 \* the blocks of a Dask-backed signal denote the value NumPy computes; a computed signal holds it
